@@ -215,6 +215,16 @@ Proof.
                | context [if ?x then _ else _] => destruct x; try discriminate E
                end; inversion E; reflexivity. }
     eapply rl_calls_same; eauto.
+  - unfold noeff in H. destruct (hwait_step s j i) as [s0|] eqn:E; inversion H; subst s0 fx; clear H.
+    destruct (hwait_step_ctrl _ _ _ _ E) as (E1 & _ & _ & E4 & _).
+    assert (Ec : calls s' = calls s).
+    { unfold hwait_step in E. destruct (nth_error (hctxs s) j) as [h|]; [|discriminate]. cbv zeta in E.
+      destruct (k_pc h); try discriminate;
+        repeat match type of E with
+               | context [match ?x with _ => _ end] => destruct x; try discriminate E
+               | context [if ?x then _ else _] => destruct x; try discriminate E
+               end; inversion E; reflexivity. }
+    eapply rl_calls_same; eauto.
 Qed.
 
 
@@ -298,6 +308,16 @@ Proof.
                | context [if ?x then _ else _] => destruct x; try discriminate E
                end; inversion E; reflexivity. }
     apply (sk_same s s' E1 E5 E4 Es). repeat split; assumption.
+  - unfold noeff in H. destruct (hwait_step s j i) as [s0|] eqn:E; inversion H; subst s0 fx; clear H.
+    destruct (hwait_step_ctrl _ _ _ _ E) as (E1 & _ & _ & E4 & E5 & _).
+    assert (Es : sock s' = sock s).
+    { unfold hwait_step in E. destruct (nth_error (hctxs s) j) as [h|]; [|discriminate]. cbv zeta in E.
+      destruct (k_pc h); try discriminate;
+        repeat match type of E with
+               | context [match ?x with _ => _ end] => destruct x; try discriminate E
+               | context [if ?x then _ else _] => destruct x; try discriminate E
+               end; inversion E; reflexivity. }
+    apply (sk_same s s' E1 E5 E4 Es). repeat split; assumption.
 Qed.
 
 (* ---- once the session can no longer admit a call write, every call still in the table
@@ -305,7 +325,7 @@ Qed.
 Definition young (c : call) : Prop := c_tab c = true -> c_a c = A1 \/ c_a c = A2.
 
 Definition postb (s : sess) : bool :=
-  match rd s with D5 _ | D6 | D8 | RDone => true | RNone => negb (estab s) | _ => false end
+  match rd s with D3 _ | D4 _ | D5 _ | D6 | D8 | RDone => true | RNone => negb (estab s) | _ => false end
   || match cl s with C5 | C6 | C7 => true | _ => false end
   || closed (st s).
 
@@ -412,7 +432,7 @@ Proof.
     rewrite orb_true_r. reflexivity.
 Qed.
 
-Definition rd_postb (r : rpc) : bool := match r with D5 _ | D6 | D8 | RDone => true | _ => false end.
+Definition rd_postb (r : rpc) : bool := match r with D3 _ | D4 _ | D5 _ | D6 | D8 | RDone => true | _ => false end.
 
 Lemma reader_pre_target s b s' fx :
   reader_step fixed s b = Some (s', fx) ->
@@ -503,8 +523,9 @@ Proof.
     unfold yg_inv, postb in *; cbn; rewrite Erd in Hy; cbn in Hy; intros _; apply Hy; reflexivity.
   - unfold reader_step, notify in H. rewrite Erd in H. inversion H; subst.
     unfold yg_inv, postb in *; cbn; rewrite Erd in Hy; cbn in Hy. destruct (notified s); cbn; intros _; apply Hy; reflexivity.
-  - unfold reader_step in H. rewrite Erd in H. destruct (all_visited (calls s)); inversion H; subst.
-    unfold yg_inv, postb in *; cbn. rewrite Erd in Hy. exact Hy.
+  - (* DC -> D3: the first cancel loop is through, nothing is left in the table *)
+    unfold reader_step in H. rewrite Erd in H. destruct (all_visited (calls s)) eqn:Ev; inversion H; subst.
+    unfold yg_inv. intros _. cbn. apply all_visited_young; auto.
 Qed.
 
 Lemma yg_inv_step s e s' fx :
@@ -528,6 +549,16 @@ Proof.
     destruct (handler_step_ctrl _ _ _ _ _ E) as (E1 & _ & _ & E4 & E5 & E6 & _).
     assert (Ec : calls s' = calls s).
     { unfold handler_step in E. destruct (nth_error (hctxs s) j) as [h|]; [|discriminate]. cbv zeta in E.
+      destruct (k_pc h); try discriminate;
+        repeat match type of E with
+               | context [match ?x with _ => _ end] => destruct x; try discriminate E
+               | context [if ?x then _ else _] => destruct x; try discriminate E
+               end; inversion E; reflexivity. }
+    apply (yg_same s); [exact Ec| |exact Hy]. unfold postb. rewrite E1, E4, E5, E6. reflexivity.
+  - unfold noeff in H. destruct (hwait_step s j i) as [s0|] eqn:E; inversion H; subst s0 fx; clear H.
+    destruct (hwait_step_ctrl _ _ _ _ E) as (E1 & _ & _ & E4 & E5 & E6 & _).
+    assert (Ec : calls s' = calls s).
+    { unfold hwait_step in E. destruct (nth_error (hctxs s) j) as [h|]; [|discriminate]. cbv zeta in E.
       destruct (k_pc h); try discriminate;
         repeat match type of E with
                | context [match ?x with _ => _ end] => destruct x; try discriminate E
@@ -704,23 +735,8 @@ Proof.
     + discriminate.
     + unfold bound_ok in Hb. rewrite Erd in Hb. destruct Hb as (c0 & Hc0 & _). rewrite Hc0 in R. discriminate.
   - destruct seen; cbn [fix_cas fixed] in R; try destruct (status_eqb (st s) _); discriminate.
-  - (* D3: nothing is counted in the context wait group *)
-    destruct Hw as (Hx & _). destruct (ctxWG s) eqn:Ew; [discriminate|].
-    rewrite (cnt_all_false ctx_active) in Hx.
-    + rewrite (cnt_all_false h_active) in Hx; [cbn in Hx; discriminate|].
-      intros x Hin. destruct (In_nth_error _ _ Hin) as (j & Hj).
-      destruct (terminal_free s j x Hco Hrl Hb T Hj) as (_ & X2). unfold h_active. rewrite X2. reflexivity.
-    + intros x Hin. destruct (In_nth_error _ _ Hin) as (j & Hj).
-      unfold ctx_active. rewrite (terminal_hctx_done s j x T Hj). reflexivity.
-  - (* D4: the cancel loop is not blocked *)
-    destruct (all_visited (calls s)) eqn:Ev; [discriminate|].
-    unfold all_visited in Ev. destruct (forallb_false_nth _ _ Ev) as (j & c0 & Hj & Hc0).
-    pose proof (terminal_visit s j c0 T Hj) as V. unfold visit_step in V. rewrite Erd in V. cbn [rd_cancel] in V.
-    unfold visit_body in V. rewrite Hj in V.
-    apply orb_false_iff in Hc0. destruct Hc0 as (Ht & Hv). apply negb_false_iff in Ht.
-    rewrite Ht, Hv, (Hfree _ _ Hj) in V. cbn in V.
-    destruct (negb (c_rep c0) && cstat_ok (c_stat c0)); discriminate.
-  - (* DC: nor is the first one *)
+  - (* DC: the first cancel loop is not blocked (past it, in D3 and D4, the table holds only
+       calls before their status check: excluded above) *)
     destruct (all_visited (calls s)) eqn:Ev; [discriminate|].
     unfold all_visited in Ev. destruct (forallb_false_nth _ _ Ev) as (j & c0 & Hj & Hc0).
     pose proof (terminal_visit s j c0 T Hj) as V. unfold visit_step in V. rewrite Erd in V. cbn [rd_cancel] in V.
@@ -731,6 +747,42 @@ Proof.
 Qed.
 
 
+
+(* no handler is left waiting for a call of its own session *)
+Lemma handlers_finish_lemma s :
+  reach_sess s -> terminal s = true ->
+  (conn s = false \/ sock s = false \/ closed (st s) = true) ->
+  forall j h, nth_error (hctxs s) j = Some h -> k_pc h = KDone.
+Proof.
+  intros Hr T Hg j h Hj. destruct (terminal_hctx_done s j h T Hj) as [X|(i & c & X & Hc & Hd)]; auto.
+  pose proof (no_orphan_lemma s Hr T Hg i c Hc). lia.
+Qed.
+
+(* ---- cancel loop only after the handler wait (before 33a3798) ---- *)
+Definition cfg_nopre : cfg := mkCfg true true true true true false.
+
+(* an incoming CALL whose handler issues a call on the same session and waits for its
+   completion; then the connection is lost *)
+Definition wait_history : list sevent :=
+  [EFrame FrCall; EReader true; EReader true; EReader true;   (* handler context counted, reader back in ReadMessage *)
+   EHandler 0 false WOk;                                      (* the user handler runs *)
+   EIssue; EHWait 0 0] ++ repeat (ECaller 0 false WOk) 4 ++   (* it calls, the request goes out, it waits *)
+  [EConnLost; EFrame FrErr; EReader true; EReader true; EReader true].   (* read error; status, index *)
+
+Lemma cancel_after_wait_refuted_lemma :
+  exists s c h, srun_cfg cfg_nopre live_session (wait_history ++ [EReader true]) = Some s /\
+                terminal_cfg cfg_nopre s = true /\ conn s = false /\ rd s = D3 Ok /\ ctxWG s = 1 /\
+                nth_error (calls s) 0 = Some c /\ c_dones c = 0 /\ c_tab c = true /\
+                nth_error (hctxs s) 0 = Some h /\ k_pc h = K1w 0.
+Proof. eexists; eexists; eexists. split; [vm_compute; reflexivity|]. vm_compute. repeat split; auto. Qed.
+
+Lemma wait_fixed :
+  exists s c h, srun live_session (wait_history ++ [EReader true; EVisit 0; EReader true]
+                                   ++ repeat (EHandler 0 false WOk) 4 ++ repeat (EReader true) 5) = Some s /\
+                terminal s = true /\ rd s = RDone /\ st s = PassiveClosed /\
+                nth_error (calls s) 0 = Some c /\ c_dones c = 1 /\ c_stat c = StConnClosed /\
+                nth_error (hctxs s) 0 = Some h /\ k_pc h = KDone.
+Proof. eexists; eexists; eexists. split; [vm_compute; reflexivity|]. vm_compute. repeat split; auto. Qed.
 
 (* ---- a written call ends with a connection error only after the connection was lost ---- *)
 Definition rd_exited (r : rpc) : bool :=
@@ -778,6 +830,8 @@ Proof.
     destruct (reply_step_ctrl _ _ _ E) as (_ & _ & _ & E4 & _). rewrite E4; auto.
   - unfold noeff in H. destruct (handler_step s j veto wr) eqn:E; inversion H; subst.
     destruct (handler_step_ctrl _ _ _ _ _ E) as (_ & _ & _ & E4 & _). rewrite E4; auto.
+  - unfold noeff in H. destruct (hwait_step s j i) eqn:E; inversion H; subst.
+    destruct (hwait_step_ctrl _ _ _ _ E) as (_ & _ & _ & E4 & _). rewrite E4; auto.
 Qed.
 
 Lemma lost_evidence_step s e s' fx : stat_inv s -> sstep s e = Some (s', fx) -> lost_evidence s -> lost_evidence s'.
@@ -931,6 +985,14 @@ Proof.
   - unfold noeff in H. destruct (handler_step s j veto wr) as [s0|] eqn:E; inversion H; subst s0 fx; clear H.
     apply (cc_all_mono s); auto.
     unfold handler_step in E. destruct (nth_error (hctxs s) j) as [h|]; [|discriminate]. cbv zeta in E.
+    destruct (k_pc h); try discriminate;
+      repeat match type of E with
+             | context [match ?x with _ => _ end] => destruct x; try discriminate E
+             | context [if ?x then _ else _] => destruct x; try discriminate E
+             end; inversion E; reflexivity.
+  - unfold noeff in H. destruct (hwait_step s j i) as [s0|] eqn:E; inversion H; subst s0 fx; clear H.
+    apply (cc_all_mono s); auto.
+    unfold hwait_step in E. destruct (nth_error (hctxs s) j) as [h|]; [|discriminate]. cbv zeta in E.
     destruct (k_pc h); try discriminate;
       repeat match type of E with
              | context [match ?x with _ => _ end] => destruct x; try discriminate E
